@@ -220,6 +220,193 @@ CORPUS = {
 }
 
 
+# ------------------------------------------------------------------ corpus (secure prime fields, small p)
+
+def _fld_inp(api, secfld, X, k):
+    s = k % api.m
+    mine = api.party.pid == s
+    v = secfld(secfld.field(X[k])) if mine else secfld(0)
+    return api.mpc.input(v, senders=s)
+
+
+async def p_fld_zero(party, X, api):
+    mpc = api.mpc
+    secfld = mpc.SecFld(api.env.params['p'])
+    a, b = _fld_inp(api, secfld, X, 0), _fld_inp(api, secfld, X, 1)
+    e = await mpc.is_zero_public(a - b)
+    z = await mpc.eq_public(a * b, secfld(0))
+    return {'e': ('bool', e), 'z': ('bool', z)}
+
+
+def o_fld_zero(X, p):
+    return {'e': X[0] == X[1], 'z': (X[0] == 0) | (X[1] == 0)}
+
+
+async def p_fld_arith(party, X, api):
+    mpc = api.mpc
+    secfld = mpc.SecFld(api.env.params['p'])
+    a, b, c = _fld_inp(api, secfld, X, 0), _fld_inp(api, secfld, X, 1), _fld_inp(api, secfld, X, 2)
+    y = a * b - c + 3
+    w = (a + b) * (a - b)
+    out = await mpc.output([y, w], raw=True)
+    sy = await mpc.gather(y)
+    return {'y': ('fld', out[0].value), 'w': ('fld', out[1].value), 's_y': ('share', sy.value)}
+
+
+def o_fld_arith(X, p):
+    return {'y': (X[0] * X[1] - X[2] + 3) % p, 'w': ((X[0] + X[1]) * (X[0] - X[1])) % p, 's_y': (X[0] * X[1] - X[2] + 3)}
+
+
+FLD_CORPUS = {'fld_zero': (p_fld_zero, o_fld_zero), 'fld_arith': (p_fld_arith, o_fld_arith)}
+
+
+def run_fld_program(env, m, t, prss, name, p, k, instrument=None):
+    body, oracle = FLD_CORPUS[name]
+    X = [env.fresh(f'x{i}', 0, p) for i in range(3)]
+    want = oracle(X, p)
+    args = ['-K', str(k)] + ([] if prss else ['--no-prss'])
+    sim = simnet.Sim(env, m, t, args)
+    for party in sim.parties:
+        if instrument:
+            instrument(party, sim)
+        log_calls(party, '_randoms', 'output')
+    apis = {}
+
+    async def prog(party):
+        api = Api(env, party, m, t, 8)
+        apis[party.pid] = api
+        return await body(party, X, api)
+    sim.start(prog)
+    results = guarded_run(env, sim)
+    rt = sim.parties[0].mpc
+    R = type(rt)
+    env.encoded(R.is_zero_public, R.output, R._reshare, R.mul, R._randoms)
+    return dict(X=X, want=want, results=results, sim=sim, p=p, m=m, t=t)
+
+
+def zero_test_obligations(env, run, A_list, regime):
+    """Decomposition of is_zero_public for prime fields of any size:
+      lemma  opened value == A * R (mod p) for every party  (polynomial identity, decided by z3)
+      fact   Z_p has no zero divisors
+      medium/small fields: the retry loop guarantees R*S != 0 on this path, hence R != 0
+      large fields: R != 0 is the documented assumption ("nonzero with high probability")
+    so that the final obligation 'result <=> A == 0' is linear reasoning over the shared terms."""
+    if run['results'] is None:
+        return
+    p, m, t = run['p'], run['m'], run['t']
+    parties = run['sim'].parties
+    ntests = len(A_list)
+    for j, A in enumerate(A_list):
+        # per party: the _randoms call and the output calls belonging to test j (no restart on this path)
+        rs_vals, c_vals, R_sh, S_sh = [], [], [], []
+        for party in parties:
+            rl = [resolved(x) for x in party.calllog['_randoms']]
+            ol = [resolved(x) for x in party.calllog['output'] if not isinstance(resolved(x), list) or True]
+            # outputs opened inside the zero tests are single field elements (not lists)
+            ol = [x for x in ol if not isinstance(x, list)]
+            if regime == 'large':
+                r = rl[j][0]
+                c = ol[j]
+                R_sh.append(kit.fval(r))
+            else:
+                r, s_ = rl[j][0], rl[j][1]
+                R_sh.append(kit.fval(r))
+                S_sh.append(kit.fval(s_))
+                rs_vals.append(kit.fval(ol[2 * j]))
+                c = ol[2 * j + 1]
+            c_vals.append(kit.fval(c))
+        R = secret_of(R_sh, t, p)
+        no_zero_divisors(env, A, R, p)
+        if regime == 'large':
+            env.assume((R % p) != 0, note='multiplicative mask of is_zero_public on large fields is non-zero '
+                       '(documented "nonzero with high probability"; excluded mass 1/p)')
+        else:
+            S = secret_of(S_sh, t, p)
+            no_zero_divisors(env, R, S, p)
+            for pid in range(m):
+                env.lemma(f'rs_opened[{j}]@{pid}', (rs_vals[pid] - R * S) % p == 0)
+        for pid in range(m):
+            env.lemma(f'masked_opened[{j}]@{pid}', (c_vals[pid] - A * R) % p == 0)
+
+
+def log_calls(party, *names):
+    """Wrap Runtime methods of this party's copy so that their return values are kept (in call order)."""
+    mpc = party.mpc
+    party.calllog = getattr(party, 'calllog', {})
+    for name in names:
+        orig = getattr(mpc, name)
+        log = party.calllog.setdefault(name, [])
+
+        def wrapped(*a, _orig=orig, _log=log, **kw):
+            r = _orig(*a, **kw)
+            _log.append(r)
+            return r
+        setattr(mpc, name, wrapped)
+
+
+def resolved(x):
+    if hasattr(x, 'result') and hasattr(x, 'done'):
+        x = x.result()
+    if hasattr(x, 'share'):
+        x = x.share
+        if hasattr(x, 'result'):
+            x = x.result()
+    return x
+
+
+def secret_of(vals, t, p):
+    """constant term of the degree-<=t polynomial through the first t+1 parties' share values (unreduced)."""
+    xs = list(range(1, len(vals) + 1))
+    return interp(xs[:t+1], vals[:t+1], 0, p)
+
+
+def is_prime(n):
+    if n < 2:
+        return False
+    for q in (2, 3, 5, 7, 11, 13, 17, 19, 23, 29, 31, 37):
+        if n % q == 0:
+            return n == q
+    d, s = n - 1, 0
+    while d % 2 == 0:
+        d //= 2
+        s += 1
+    for a in (2, 3, 5, 7, 11, 13, 17, 19, 23, 29, 31, 37):     # deterministic for n < 3.3e24; fields here are checked by mpyc too
+        x = pow(a, d, n)
+        if x in (1, n - 1):
+            continue
+        for _ in range(s - 1):
+            x = x * x % n
+            if x == n - 1:
+                break
+        else:
+            return False
+    return True
+
+
+def no_zero_divisors(env, x, y, p):
+    """fact instance for a prime p: x*y == 0 (mod p)  <=>  x == 0 or y == 0 (mod p)."""
+    assert is_prime(p)
+    env.fact(((x * y) % p == 0) == (((x % p) == 0) | ((y % p) == 0)),
+             'Z_p has no zero divisors (p prime, checked by the harness), instantiated for the masked zero tests')
+
+
+def guarded_run(env, sim):
+    """Run the simulation; a deadlock or an exception of the real code becomes a failed obligation
+    (so that it is replayed and reported), never a harness error."""
+    from vf.symx import Unmodelled
+    try:
+        return sim.run_canonical()
+    except simnet.Deadlock as e:
+        env.check('all_parties_terminate', False)
+    except (Unmodelled, AssertionError):
+        raise
+    except Exception as e:
+        if type(e).__name__ in ('AssumptionFailed',):
+            raise
+        env.check(f'no_exception[{type(e).__name__}]', False)
+    return None
+
+
 def make_inputs(env, l=L, small=False):
     """X[0..2]: l-bit signed values (products of the corpus stay in range by assumption), X[3..5]: bits."""
     h = 1 << (l - 1)
@@ -245,6 +432,8 @@ def run_program(env, m, t, prss, name, l=L, instrument=None, sim_hook=None):
         env.assume(in_range(env, X[0] * X[1], l), note='intermediate products stay within l bits')
     if name == 'pow3':
         env.assume(in_range(env, X[0] * X[0], l), note='intermediate products stay within l bits')
+    if name == 'zero_public':
+        env.assume(in_range(env, X[0] * X[1], l) & in_range(env, X[0] - X[1], l), note='intermediate values stay within l bits')
     args = ['-K', '30'] + ([] if prss else ['--no-prss'])
     sim = simnet.Sim(env, m, t, args)
     if instrument:
@@ -259,10 +448,11 @@ def run_program(env, m, t, prss, name, l=L, instrument=None, sim_hook=None):
     sim.start(prog)
     if sim_hook:
         sim_hook(sim)
-    results = sim.run_canonical()
+    results = guarded_run(env, sim)
     p = apis[0].p
     rt = sim.parties[0].mpc
-    env.encoded(rt.input.__func__, rt._distribute.__func__, rt.output.__func__, rt._reshare.__func__, rt.mul.__func__,
+    R = type(rt)
+    env.encoded(R.input, R._distribute, R.output, R._reshare, R.mul,
                 sim.parties[0].thresha.random_split, sim.parties[0].thresha.recombine,
                 sim.parties[0].thresha.pseudorandom_share, sim.parties[0].asyncoro.MessageExchanger.data_received,
                 sim.parties[0].asyncoro.MessageExchanger.send)
@@ -276,6 +466,8 @@ def _is_boolish(w):
 
 def assert_outputs(env, run, l=L):
     """C01: every party's opened value equals the Python value (exact, signed representative)."""
+    if run['results'] is None:
+        return
     p, want = run['p'], run['want']
     m = len(run['results'])
     for pid, res in enumerate(run['results']):
@@ -284,6 +476,8 @@ def assert_outputs(env, run, l=L):
                 env.observe(f'{lab}@{pid}', v)
                 env.check(f'{lab}@{pid}', kit.signed(env, v, p) == want[lab])
                 env.check(f'{lab}@{pid}:reduced', (v >= 0) & (v < p))
+            elif kind == 'fld' and lab in want:
+                env.eq(f'{lab}@{pid}', v, want[lab])
             elif kind == 'int' and lab in want:
                 env.eq(f'{lab}@{pid}', v, want[lab])
             elif kind == 'bool' and lab in want:
@@ -291,13 +485,15 @@ def assert_outputs(env, run, l=L):
     # all receivers obtain identical values
     for lab in run['results'][0]:
         kind = run['results'][0][lab][0]
-        if kind in ('out', 'int'):
+        if kind in ('out', 'int', 'fld'):
             for pid in range(1, m):
                 env.check(f'{lab}:same@{pid}', run['results'][pid][lab][1] == run['results'][0][lab][1])
 
 
 def assert_sharing(env, run, t):
     """C11: the parties' own shares lie on one polynomial of degree <= t whose constant term is the value."""
+    if run['results'] is None:
+        return
     p, want = run['p'], run['want']
     m = len(run['results'])
     xs = list(range(1, m + 1))
